@@ -105,6 +105,9 @@ pub struct HAction {
     pub set_prompt: Option<usize>,
     /// return Err(WriteError(SinkErr(usize::MAX))) without the sink having failed
     pub fail: bool,
+    /// after its writes the handler decides the line is wrong and returns Err(ParseError(UnknownCommand)): the library
+    /// reports it as an `error:` line below whatever the handler wrote
+    pub reject: bool,
 }
 
 pub type ParseFn = for<'a> fn(RawCommand<'a>) -> Result<String, ParseError<'a>>;
@@ -235,6 +238,9 @@ impl CommandProcessor<MonSink, SinkErr> for RecProc {
             do_writes(cli.writer(), &act.writes)?;
             if act.fail {
                 return Err(ProcessError::WriteError(SinkErr(usize::MAX)));
+            }
+            if act.reject {
+                return Err(ProcessError::ParseError(ParseError::UnknownCommand));
             }
         }
         Ok(())
